@@ -98,6 +98,50 @@ def check_document(blocks, argv, rng, stats, label, n_states=20, use_grid=False)
     return fails
 
 
+def check_text(blocks, argv, rng, stats, label, n_states=20):
+    """the -bl path (optimize_isolated_asm_block): text in, text out"""
+    fails = []
+    text = " ".join(asm.instr_to_evm_text(i) for b in blocks for i in b)
+    full = ["in.txt", "-bl"] + list(argv) + ["-csv", "seq.csv", "-block-csv", "blocks.csv", "-dest-log", "out.log"]
+    r = pipeline.gasol(hermetic.gasol_main, full, {"in.txt": text}, ["in_optimized.txt", "in_optimized.json_solc"], cpu=120)
+    stats.evaluations += 1
+    lab = options.label(argv) + " -bl"
+    if r.kind != "ok" or r.value["exc"] is not None or not r.value["files"]:
+        stats.classes["-bl run raised / no output (C10 territory)"] += 1
+        return fails
+    out = list(r.value["files"].values())[0]
+    lines = [l for l in out.split("\n")]
+    try:
+        got = [asm.parse_plain(l) for l in lines]
+    except Exception as e:
+        fails.append(runner.Failure("malformed-item", "text", "[%s] emitted text cannot be read: %s: %r" % (lab, e, out[:200]),
+                                    {"type": "text", "blocks": [asm.instrs_to_plain(b) for b in blocks], "argv": list(argv), "label": label}))
+        return fails
+    # the tool splits the text into basic blocks exactly as our reader splits the item stream
+    want = [asm.items_to_instrs(b) for b in asm.split_blocks(asm.instrs_to_items([i for b in blocks for i in b]))]
+    if len(got) != len(want):
+        fails.append(runner.Failure("unalignable-output", "text", "[%s] %d blocks in, %d lines out" % (lab, len(want), len(got)),
+                                    {"type": "text", "blocks": [asm.instrs_to_plain(b) for b in blocks], "argv": list(argv), "label": label}))
+        return fails
+    for a, b in zip(want, got):
+        stats.notes["blocks"] += 1
+        if asm.canon(a) == asm.canon(b):
+            stats.classes["block unchanged"] += 1
+            continue
+        stats.classes["block changed"] += 1
+        stats.classes["changed under " + lab] += 1
+        cmp = pipeline.compare_blocks(a, b, rng, n_states=n_states)
+        if cmp["status"] == "nodomain":
+            continue
+        stats.nontrivial.add(runner.jhash([asm.instrs_to_plain(a), lab]))
+        if cmp["status"] in ("differ", "underflow"):
+            kind = "not-equivalent" if cmp["status"] == "differ" else "deeper-stack-needed"
+            fails.append(runner.Failure(kind, diff_ops(a, b), "%s under [%s]: `%s` => `%s`: %s" % (kind, lab, asm.instrs_to_plain(a), asm.instrs_to_plain(b), cmp["reason"]),
+                                        {"type": "text", "blocks": [asm.instrs_to_plain(a)], "argv": list(argv), "label": label, "optimized": asm.instrs_to_plain(b),
+                                         "state": cmp.get("state")}))
+    return fails
+
+
 def block_strategy():
     return st.one_of(gen.block(max_len=16, profile=gen.DEFAULT_PROFILE),
                      gen.block(max_len=14, profile=gen.ARITH_PROFILE),
@@ -115,8 +159,13 @@ def shard_random(n, sd, backends):
               suppress_health_check=list(HealthCheck), report_multiple_bugs=False)
     @given(st.lists(block_strategy(), min_size=2, max_size=8), options.pipeline_options(backends), st.integers(0, 2 ** 32))
     def prop(blocks, argv, s):
-        fs = check_document(blocks, argv, random.Random(s), stats, "random")
-        for f in pipeline.confirmed(fs, lambda: replay_case(f.case) if False else _redo(fs, s), stats):
+        if s % 7 == 0 and "-solver" not in argv:
+            # a share of the cases goes through the -bl entry (text in, text out, its own keep-or-revert code)
+            nolib = [[i for i in b if i[0] != "PUSHLIB"] for b in blocks]
+            fs = check_text([b for b in nolib if b], argv, random.Random(s), stats, "random")
+        else:
+            fs = check_document(blocks, argv, random.Random(s), stats, "random")
+        for f in pipeline.confirmed(fs, lambda: _redo(fs, s), stats):
             stats.fail(f)
     prop()
     return stats
@@ -148,6 +197,10 @@ def replay_case(case, stats=None):
     blocks = [asm.parse_plain(t) for t in case["blocks"]]
     argvs = [case["argv"]] if "argv" in case else options.all_pipeline_options()
     out = []
+    if case.get("type") == "text":
+        for argv in argvs:
+            out += check_text(blocks, argv, random.Random(1), stats, case.get("label", "replay"), n_states=40)
+        return out
     for argv in argvs:
         out += check_document(blocks, argv, random.Random(1), stats, case.get("label", "replay"), n_states=40, use_grid=True)
     return out
